@@ -366,9 +366,9 @@ pub fn build_pair(spec: &SessionSpec, log: Option<Log>) -> Result<Pair, Fail> {
     rng_i.script(&spec.e_priv(true));
     rng_r.script(&spec.e_priv(false));
     let i = build_snow(spec, true, &EpOverrides::default(), &Instr { rng: Some(rng_i.clone()), log: log.clone() })
-        .map_err(|x| Fail::new(format!("build initiator {}: {}", spec.name_string(), e(&x))))?;
+        .map_err(|x| Fail::setup(format!("build initiator {}: {}", spec.name_string(), e(&x))))?;
     let r = build_snow(spec, false, &EpOverrides::default(), &Instr { rng: Some(rng_r.clone()), log })
-        .map_err(|x| Fail::new(format!("build responder {}: {}", spec.name_string(), e(&x))))?;
+        .map_err(|x| Fail::setup(format!("build responder {}: {}", spec.name_string(), e(&x))))?;
     Ok(Pair { i, r, rng_i, rng_r })
 }
 
